@@ -108,12 +108,41 @@ func (r *Reader) StrRaw() ([]byte, error) {
 	if err != nil {
 		return nil, errors.Wrap(err, "read length")
 	}
-	r.b.Ensure(n)
-	if _, err := io.ReadFull(r.data, r.b.Buf); err != nil {
+	buf, err := readGrow(r.data, r.b.Buf[:0], n)
+	r.b.Buf = buf
+	if err != nil {
 		return nil, errors.Wrap(err, "read str")
 	}
 
 	return r.b.Buf, nil
+}
+
+// maxPrealloc is the largest buffer that is allocated up front for a value
+// whose length is read from the stream.
+const maxPrealloc = 1 << 20
+
+// readGrow reads n bytes from src and appends them to buf.
+//
+// Values longer than maxPrealloc are read in growing steps, so that a
+// corrupted or forged length can't make the reader allocate much more memory
+// than the stream actually delivers (or abort the process with out of memory).
+func readGrow(src io.Reader, buf []byte, n int) ([]byte, error) {
+	for n > 0 {
+		step := maxPrealloc
+		if len(buf) > step {
+			step = len(buf)
+		}
+		if step > n {
+			step = n
+		}
+		start := len(buf)
+		buf = append(buf, make([]byte, step)...)
+		if _, err := io.ReadFull(src, buf[start:]); err != nil {
+			return buf[:start], err
+		}
+		n -= step
+	}
+	return buf, nil
 }
 
 // StrAppend decodes string and appends it to provided buf.
